@@ -301,7 +301,10 @@ def main(argv=None):
     checks = [c for c in mod.CHECKS if not args.only or c.name in args.only.split(',')]
     shares = sum(c.time_share for c in checks) or 1.0
 
-    result = {'pid': args.pid, 'shard': args.shard, 'checks': [], 'replays': []}
+    result = {'pid': args.pid, 'shard': args.shard, 'checks': [], 'replays': [],
+              'meta': {'level': mod.LEVEL, 'rule': mod.RULE,
+                       'assumptions': list(mod.ASSUMPTIONS),
+                       'checks': [{'name': c.name, 'doc': c.doc} for c in mod.CHECKS]}}
     if args.shard == 0 and not args.only:
       result['replays'] = run_replays(mod, args.pid, known)
     for c in checks:
